@@ -20,9 +20,7 @@ import sys, os
 sys.path.insert(0, os.getcwd())
 from checks import common as c
 ctx = c.Ctx("setup", "quick", 1)
-import json
-pk = json.load(open(os.path.join(c.HARNESS, "packages.json")))
-for d, pkg in pk.items():
+for d, pkg in c.harness_packages().items():
     rc, out = c.sh(["go", "test", "-tags", "verif", "-overlay", c.overlay_file(ctx), "-vet=off", "-count=1", "-run", "^$", "./" + pkg + "/"], cwd=c.REPO, env=c.GOENV)
     print(pkg, "compile rc", rc, out[-300:])
     if rc != 0: sys.exit(1)
